@@ -76,3 +76,25 @@ Proof.
   cbv zeta. split; [vm_compute; discriminate|].
   repeat split; vm_compute; reflexivity.
 Qed.
+
+(** * 3. ParseAccountID with a fast path by length: "a 48-character string is
+      the user-friendly form".  The raw form with short hex admits every total
+      length, also 48: the zero-filled raw address  0:<46 hex digits>  is
+      accepted by AccountIDFromRaw and by ParseAccountID as it is, and rejected
+      by the fast-path design. *)
+Definition parse_account_fast48 (cs : list N) : res (Z * list N) :=
+  if len_is 48 cs then
+    match parse_human cs with
+    | Ok (_, wc, a) => Ok (wc, a)
+    | Err e => Err e
+    | Panic p => Panic p
+    end
+  else parse_account cs.
+
+Lemma parse_account_fast48_refuted :
+  let addr := repeat 0 9 ++ map N.of_nat (seq 1 23) in
+  let t := dec_Z 0 ++ 58 :: skipn 18 (flat_map hex_byte addr) in
+  length t = 48%nat /\
+  parse_raw t = Ok (0%Z, addr) /\ parse_account t = Ok (0%Z, addr) /\
+  is_ok (parse_account_fast48 t) = false.
+Proof. cbv zeta. repeat split; vm_compute; reflexivity. Qed.
